@@ -809,7 +809,9 @@ int MacrosIter::next()
       return 0;
     }
 
+    // ptr is an offset into one pool.
     memory_pool = memory_pool->next;
+    ptr = 0;
   }
 
   is_done = true;
